@@ -245,6 +245,13 @@ def run(ctx):
         '  time.sleep(0.1); println("m", o, n, ob.l, ob.q); }\n',
         ["w 1 Some([1, 2]) [[1], [2]] [5] Some([6])", "w own 1 Some([1, 2, 7]) 2 2 Some([6, 7])",
          "m Some([1, 2, 100]) [[1, 100], [2]] [5, 100] Some([6, 100])"], 2))
+    # a global range and a global string iterated by several cores at the same time (and by the spawner): every loop
+    # has its own cursor, whatever the others do
+    stag.append(plain_prog(
+        'let R = 0..300;\nlet S = "abcdefghijklmnopqrstuvwxyz0123456789";\n'
+        'fn count(id: int) { let c = 0; for i in R { c += 1; } let d = 0; for ch in S { d += 1; } println("count", id, c, d); }\n'
+        'fn main() { for k in 0..6 { spawn count(k); } let c = 0; for i in R { c += 1; if c == 150 { time.sleep(0.01); } } println("main", c); }\n',
+        [f"count {k} 300 36" for k in range(6)] + ["main 300"], 7))
     stag += [H.gen_spawn_staggered(rng) for _ in range(6 if ctx.tier == "quick" else 40)]
     run_batch(ctx, stag, "C17 staggered", False, 2 if ctx.tier == "quick" else 3, race=race)
     ctx.coverage["staggered_programs"] = len(stag)
